@@ -306,6 +306,7 @@ fn variants_of(t: &Sx, out: &mut Vec<u64>) {
 }
 
 pub fn gen(a: &Args) -> Vec<String> {
+    crate::eg::BIG_SYMMETRY.store(false, std::sync::atomic::Ordering::Relaxed);
     let mutant: Option<usize> = a.extra.iter().position(|x| x == "--mutant").map(|i| a.extra[i + 1].parse().unwrap());
     let mut cases = vec![];
     for c in 0..a.count {
